@@ -187,6 +187,76 @@ theorem integrate_keeps_name_grid (g : Grid) (areas : List K) (a r : Arr K)
     · cases h
   all_goals cases h
 
+/-! #### the decision is made by the NAME of the last dimension, never by coincidences of lengths -/
+
+/-- **acceptance ⇔ the last dimension is NAMED `n_face`** (and has the grid's face count) -/
+theorem integrate_ok_iff (g : Grid) (areas : List K) (a : Arr K) :
+    (∃ r, integrate g areas a = .ok r) ↔
+      a.dims.getLast? = some Dim.face ∧ a.shape.getLast? = some g.nFace := by
+  unfold integrate
+  constructor
+  · intro ⟨r, h⟩
+    split at h
+    · split at h
+      · exact ⟨‹_›, ‹_›⟩
+      · cases h
+    all_goals cases h
+  · intro ⟨hd, hs⟩
+    simp [hd, hs]
+
+/-- **dispatch by name**: `integrate` never reads `n_node`, `n_edge` (nor the grid's identity):
+    two grids with the same face count give the same decision AND the same result, whatever
+    their node/edge counts are — equal to `n_face`, to each other, or not. -/
+theorem integrate_dispatch_by_name (g g' : Grid) (areas : List K) (a : Arr K)
+    (h : g.nFace = g'.nFace) : integrate g areas a = integrate g' areas a := by
+  unfold integrate
+  rw [h]
+
+/-- a last dimension with any name other than `n_face` is rejected — `n_node`, `n_edge`, `dim_0`,
+    `nCells`, …, for every length (also the face count) and every grid -/
+theorem integrate_rejects_non_face_name (g : Grid) (areas : List K) (a : Arr K)
+    (h : a.dims.getLast? ≠ some Dim.face) : ∃ e, integrate g areas a = .error e := by
+  unfold integrate
+  split
+  · exact absurd ‹_› h
+  all_goals exact ⟨_, rfl⟩
+
+/-- node- or edge-sized data under a non-grid name is rejected, in particular on grids where that
+    length equals `n_face` -/
+theorem unnamed_sized_rejects (g : Grid) (areas : List K) (a : Arr K) (h : SizedUnnamed g a) :
+    ∃ e, integrate g areas a = .error e := by
+  apply integrate_rejects_non_face_name
+  intro hf
+  have := h.1
+  simp [NonGridName, hf, Dim.isOther] at this
+
+/-- the accept/reject decision of two arrays with the same last-dimension name and length is the
+    same — nothing else about them matters -/
+theorem integrate_decision_congr (g : Grid) (areas : List K) (a b : Arr K)
+    (hd : a.dims.getLast? = b.dims.getLast?) (hs : a.shape.getLast? = b.shape.getLast?) :
+    (∃ r, integrate g areas a = .ok r) ↔ (∃ r, integrate g areas b = .ok r) := by
+  rw [integrate_ok_iff, integrate_ok_iff, hd, hs]
+
+/-- the length-fallback variant (seeded regression C06f) is right where the counts differ from
+    `n_face` (excluded class: `n_node = n_face ∨ n_edge = n_face`, see
+    `lenfallback_integrates_unnamed_node_data`) -/
+theorem lenfallback_rejects_partial (g : Grid) (areas : List K) (a : Arr K)
+    (hnf : g.nNode ≠ g.nFace) (hef : g.nEdge ≠ g.nFace) (h : SizedUnnamed g a) :
+    ∃ e, integrateLenFallback g areas a = .error e := by
+  obtain ⟨hname, hlen⟩ := h
+  unfold integrateLenFallback
+  split
+  · rename_i k s hd hs
+    rcases hlen with hl | hl
+    · rw [hs] at hl; cases hl
+      simp [hnf]
+    · rw [hs] at hl; cases hl
+      simp [hef]
+      split <;> simp
+  · apply integrate_rejects_non_face_name
+    intro hf
+    simp [NonGridName, hf, Dim.isOther] at hname
+
 /-- the as-is dispatch agrees with the repaired one on face-centred variables … -/
 theorem asis_accepts (g : Grid) (areas : List K) (a : Arr K) (h : FaceCentred g a) :
     integrateAsIs g areas a = integrate g areas a := by
@@ -234,6 +304,27 @@ theorem asis_integrates_node_data :
 /-- the repaired dispatch rejects the same witness -/
 theorem repaired_rejects_witness :
     integrate tetra [1, 1, 1, 1] tetraNodeData = .error .node := by decide
+
+/-- node-sized data on the tetrahedron under a non-grid name (`dim_0`, `nVertices`, …) -/
+def tetraUnnamed : Arr Nat :=
+  { dims := [Dim.other 0], shape := [4], data := [0, 1, 2, 3], name := some 0, grid := 7 }
+
+/-- **regression variant C06f**: inferring the element kind of an unnamed dimension from its
+    LENGTH integrates node-sized data on the tetrahedron (n_node = n_face = 4) -/
+theorem lenfallback_integrates_unnamed_node_data :
+    ¬ (∀ (g : Grid) (areas : List Nat) (a : Arr Nat), SizedUnnamed g a →
+        ∃ e, integrateLenFallback g areas a = .error e) := by
+  intro h
+  obtain ⟨e, he⟩ := h tetra [1, 1, 1, 1] tetraUnnamed (by decide)
+  have hv : integrateLenFallback tetra [1, 1, 1, 1] tetraUnnamed =
+      .ok { dims := [], shape := [], data := [6], name := some 0, grid := 7 } := by decide
+  rw [hv] at he
+  cases he
+
+/-- the repaired (name-only) dispatch rejects that witness, as `/repo` does -/
+theorem repaired_rejects_unnamed_witness :
+    SizedUnnamed tetra tetraUnnamed ∧
+    integrate tetra [1, 1, 1, 1] tetraUnnamed = .error .other := by decide
 
 /-- **known finding** (legacy `UxDataset.integrate`): no dispatch at all — node data of the right
     length is integrated -/
@@ -300,14 +391,14 @@ theorem close_exact (areas row : List Rat) : Close areas row (dot areas row) := 
 theorem failedClauses_nil_iff (g : Grid) (areas : List Rat) (a : Arr Rat) (o : Obs) :
     failedClauses g areas a o = [] ↔ Spec g areas a o := by
   unfold failedClauses Spec
-  by_cases hf : FaceCentred g a <;> by_cases hn : NodeOrEdge a <;> cases o <;>
-    simp [hf, hn]
+  by_cases hf : FaceCentred g a <;> by_cases hn : NodeOrEdge a <;>
+    by_cases hz : SizedUnnamed g a <;> cases o <;> simp [hf, hn, hz]
 
 /-- **refinement**: on every input the (repaired) model's exact output satisfies the
     specification the driver evaluates on the implementation's output. -/
 theorem integrate_meets_spec (g : Grid) (areas : List Rat) (a : Arr Rat) :
     Spec g areas a (obsOf (integrate g areas a)) := by
-  constructor
+  refine ⟨?_, ?_, ?_⟩
   · intro h
     rw [integrate_accepts g areas a h]
     refine ⟨result areas a, rfl, rfl, ⟨rfl, by simp [result, integrateData]⟩, rfl, rfl, ?_⟩
@@ -318,6 +409,9 @@ theorem integrate_meets_spec (g : Grid) (areas : List Rat) (a : Arr Rat) :
   · intro h
     obtain ⟨e, he⟩ := dispatch_rejects g areas a h
     rw [he]; rfl
+  · intro h
+    obtain ⟨e, he⟩ := unnamed_sized_rejects g areas a h
+    rw [he]; rfl
 
 /-- the as-is model violates the specification on the tetrahedron witness -/
 theorem asis_fails_spec :
@@ -326,7 +420,18 @@ theorem asis_fails_spec :
         (obsOf (integrateAsIs tetra [1, 1, 1, 1]
           { dims := [Dim.node], shape := [4], data := [0, 1, 2, 3], name := some 0, grid := 7 })) := by
   intro h
-  have := h.2 (by decide)
+  have := h.2.1 (by decide)
+  revert this
+  decide
+
+/-- the length-fallback variant violates the specification on the unnamed tetrahedron witness -/
+theorem lenfallback_fails_spec :
+    ¬ Spec tetra [1, 1, 1, 1]
+        { dims := [Dim.other 0], shape := [4], data := [0, 1, 2, 3], name := some 0, grid := 7 }
+        (obsOf (integrateLenFallback tetra [1, 1, 1, 1]
+          { dims := [Dim.other 0], shape := [4], data := [0, 1, 2, 3], name := some 0, grid := 7 })) := by
+  intro h
+  have := h.2.2 (by decide)
   revert this
   decide
 
@@ -456,6 +561,16 @@ example : [1, 0].Perm (List.range g2.nFace) ∧
     integrate g2 (reindex [1, 0] [5, 7]) (permA [1, 0] 2 2 x3) = integrate g2 [5, 7] x3 := by
   decide
 example : NodeOrEdge tetraNodeData := by decide
+-- dispatch by name: the same array on grids that differ only in node/edge counts
+example : integrate { nFace := 2, nNode := 2, nEdge := 2, gid := 9 } [5, 7] x3 = integrate g2 [5, 7] x3 := by
+  decide
+-- non-grid names are rejected for every length, also the face count
+example : (∃ e, integrate g2 [5, 7] { x3 with dims := [Dim.other 0, Dim.other 1, Dim.other 2] } = .error e) :=
+  ⟨.other, by decide⟩
+-- the partial theorem's hypotheses are satisfiable (prism-like counts 2/4/5, node-sized unnamed data)
+example : g2.nNode ≠ g2.nFace ∧ g2.nEdge ≠ g2.nFace ∧
+    SizedUnnamed g2 ({ dims := [Dim.other 3], shape := [4], data := [1, 2, 3, 4], name := none, grid := 1 } : Arr Nat) := by
+  decide
 example : (∃ e, integrate tetra [1, 1, 1, 1] tetraNodeData = .error e) := ⟨.node, by decide⟩
 
 /-! ### the default arguments (regenerated from `inspect.signature` on every run) -/
